@@ -186,4 +186,33 @@ theorem gen_concentric_hexagons (radius : Int) (start : P2) :
   dsimp only [List.nil_append]
   rw [pyRange1_eq, hn, e]
   rfl
+/-! ### `Machine.__contains__` (rig/place_and_route/machine.py), for a chip and for a link -/
+
+/-- the dead links of the model as the Python set of `(x, y, link)` triples -/
+def deadLinksPy (m : Mach) : List (Int × Int × Int) := m.deadLinks.map (fun e => (e.1.1, e.1.2, (e.2 : Int)))
+
+/-- `(x, y) in machine` as written in the source = the model's `hasChip` -/
+theorem gen_machine_contains_chip (m : Mach) (p : P2) :
+    (PyFun.Machine_contains_chip m.w m.h m.deadChips (deadLinksPy m) p).1 = m.hasChip p := by
+  obtain ⟨x, y⟩ := p
+  unfold PyFun.Machine_contains_chip Mach.hasChip
+  first
+    | (simp only [Bool.decide_and, Bool.and_assoc, decide_not, Bool.decide_eq_true]; done)
+    | (rw [Bool.eq_iff_iff]
+       simp only [decide_eq_true_eq, Bool.and_eq_true, Bool.not_eq_true', Bool.not_eq_true, decide_not,
+         Bool.decide_eq_true, Bool.decide_and]
+       cases m.deadChips.contains (x, y) <;> simp <;> omega)
+
+/-- `(x, y, link) in machine` as written in the source = the model's `hasLink` -/
+theorem gen_machine_contains_link (m : Mach) (p : P2) (l : Nat) :
+    (PyFun.Machine_contains_link m.w m.h m.deadChips (deadLinksPy m) (p.1, p.2, (l : Int))).1 = m.hasLink p l := by
+  obtain ⟨x, y⟩ := p
+  unfold PyFun.Machine_contains_link Mach.hasLink
+  simp only [gen_machine_contains_chip]
+  have hc : (deadLinksPy m).contains (x, y, (l : Int)) = m.deadLinks.contains ((x, y), l) := by
+    have := contains_map_inj (fun (e : P2 × Nat) => (e.1.1, e.1.2, (e.2 : Int)))
+      (by intro a b h; obtain ⟨⟨a1, a2⟩, a3⟩ := a; obtain ⟨⟨b1, b2⟩, b3⟩ := b; simp at h ⊢; omega) m.deadLinks ((x, y), l)
+    exact this
+  simp only [hc, Bool.decide_and, decide_not, Bool.decide_eq_true]
+
 end Rig.C11
